@@ -159,3 +159,157 @@ Example C13_ex_step : wclean 2 ([false; false] ++ [true; true; true]) /\
 Proof.
   split; [|reflexivity]. exact (clean_wclean 2 false [true; true; true] ltac:(discriminate) eq_refl).
 Qed.
+
+From PV Require Import Edges.SpecX Edges.ProofsX.
+
+(* ==================================================================================================
+   Extension: WHERE the events of an emitted block lie (Edges/SpecX.v, Edges/ProofsX.v).
+   The span of a block is delayed by m against the input, while a falling edge is reported as soon as its
+   sample arrives and a rising edge once m high samples have arrived; so a block can hold events AT OR
+   AFTER its own end (observed on the real code), never at or before its start. *)
+
+(* For EVERY input - no run-length precondition, any chunk list (plain / annotated, empty chunks, also a run
+   that stops on an error), every initial state, detect mode and first index - and every emitted block:
+   a rising event lies in (start, end], a falling event in [start + m, end + m).  In particular no event
+   lies at or before its block's start and none m or more samples past its end.  (Blocks are only
+   emitted for m >= 1.)  All four bounds are attained: C13_event_window_sharp. *)
+Theorem C13_events_not_before_block : forall d m init fs cs bs s, run_edges d m init fs cs = (bs, s) ->
+  forall E e, In E bs -> In e (evs E) ->
+    1 <= m /\
+    match fst e with
+    | Rising => e_start E < snd e <= e_end E
+    | Falling => e_start E + m <= snd e < e_end E + m
+    end /\
+    e_start E < snd e < e_end E + m.
+Proof. exact events_not_before_block. Qed.
+Print Assumptions C13_events_not_before_block.
+
+Theorem C13_event_window_sharp :
+  exists m init cs bs,
+    clean m init (stream cs) = true /\ input_ok 0 cs /\ run_edges DBoth m init 1000 cs = (bs, Ok) /\
+    (exists E, In E bs /\ In (Rising, e_start E + 1) (evs E)) /\
+    (exists E, In E bs /\ In (Rising, e_end E) (evs E)) /\
+    (exists E, In E bs /\ In (Falling, e_start E + m) (evs E)) /\
+    (exists E, In E bs /\ In (Falling, e_end E + m - 1) (evs E)).
+Proof. exact event_window_sharp. Qed.
+Print Assumptions C13_event_window_sharp.
+
+(* The natural claim "every event lies inside its block's [start, end)" is false, for a rising and for a
+   falling event, on a stream meeting the run-length precondition (x = 0^5 1^4 0^4 1^5 0^6, m = 3, initial
+   state low; replayed on the real code): chunk sizes (8, 16): block [-3, 5) holds (rising, 5) = its end;
+   chunk sizes (10, 14): block [-3, 7) holds (falling, 9) = its end + m - 1. *)
+Theorem C13_events_in_span_refuted :
+  exists m init x cs1 cs2 bs1 bs2 E1 E2,
+    clean m init x = true /\ stream cs1 = x /\ stream cs2 = x /\ input_ok 0 cs1 /\ input_ok 0 cs2 /\
+    run_edges DBoth m init 1000 cs1 = (bs1, Ok) /\ In E1 bs1 /\ In (Rising, e_end E1) (evs E1) /\
+    run_edges DBoth m init 1000 cs2 = (bs2, Ok) /\ In E2 bs2 /\ In (Falling, e_end E2 + m - 1) (evs E2) /\
+    ~ contained E1 /\ ~ contained E2.
+Proof. exact events_in_span_refuted. Qed.
+Print Assumptions C13_events_in_span_refuted.
+
+(* An event of block E that is not below E's end (`ahead`) is less than m samples past it - a rising one
+   exactly AT the end - and therefore lies inside the span of one of the blocks emitted AFTER E as soon as
+   these reach past it, at the latest once they cover m more samples.  Every input. *)
+Theorem C13_ahead_events_are_next_block : forall d m init fs cs pre E post s k a,
+  run_edges d m init fs cs = (pre ++ E :: post, s) -> In (k, a) (evs E) -> ahead E (k, a) ->
+  a < e_end E + m /\ (k = Rising -> a = e_end E) /\
+  (a < e_end (last post E) -> exists E', In E' post /\ e_start E' <= a < e_end E') /\
+  (e_end E + m <= e_end (last post E) -> exists E', In E' post /\ e_start E' <= a < e_end E').
+Proof. exact ahead_events_next_block. Qed.
+Print Assumptions C13_ahead_events_are_next_block.
+
+(* In the merge (combine_events) of ANY run of consecutive emitted blocks the events obey the window of the
+   merged block ... *)
+Theorem C13_merged_segment_in_span : forall d m init fs cs pre seg post s M,
+  run_edges d m init fs cs = (pre ++ seg ++ post, s) -> combine_events seg = COk M ->
+  first_index cs - m <= e_start M /\
+  forall e, In e (evs M) ->
+    match fst e with
+    | Rising => e_start M < snd e <= e_end M
+    | Falling => e_start M + m <= snd e < e_end M + m
+    end /\ e_start M < snd e < e_end M + m.
+Proof. exact merged_segment_in_span. Qed.
+Print Assumptions C13_merged_segment_in_span.
+
+(* ... in particular in the merge of the first kk blocks, which spans [first - m, end of block kk):
+   every event lies after the first start and less than m samples past the last end *)
+Theorem C13_merged_prefix_in_span : forall d m init fs cs bs s kk M,
+  run_edges d m init fs cs = (bs, s) -> combine_events (firstn kk bs) = COk M ->
+  e_start M = first_index cs - m /\ e_end M = e_end (last (firstn kk bs) M) /\
+  forall e, In e (evs M) ->
+    match fst e with
+    | Rising => e_start M < snd e <= e_end M
+    | Falling => e_start M + m <= snd e < e_end M + m
+    end /\ e_start M < snd e < e_end M + m.
+Proof. exact merged_prefix_in_span. Qed.
+Print Assumptions C13_merged_prefix_in_span.
+
+(* "The query over a block's span returns the block" (C13_range_whole needs `contained`) is FALSE for
+   emitted blocks: here the block holds one event and the query over its span returns none ... *)
+Theorem C13_range_query_whole_span_refuted :
+  exists m init cs bs E R,
+    clean m init (stream cs) = true /\ input_ok 0 cs /\ run_edges DBoth m init 1000 cs = (bs, Ok) /\
+    In E bs /\ get_range_samples E (e_start E) (e_end E) = Some R /\ R <> E /\
+    evs E = [(Rising, 5)] /\ evs R = [].
+Proof. exact range_whole_span_refuted. Qed.
+Print Assumptions C13_range_query_whole_span_refuted.
+
+(* ... what holds, for every input: the query over the span of an emitted block is accepted and answers
+   with exactly the block's events below its end, in order; the events at or after the end are omitted;
+   the block comes back whole exactly when it has none of those *)
+Theorem C13_range_query_whole_span_partial : forall d m init fs cs bs s E,
+  run_edges d m init fs cs = (bs, s) -> In E bs ->
+  exists R, get_range_samples E (e_start E) (e_end E) = Some R /\
+    e_start R = e_start E /\ e_end R = e_end E /\ e_fs R = e_fs E /\
+    evs R = filter (below_end E) (evs E) /\
+    (forall e, In e (evs R) <-> In e (evs E) /\ snd e < e_end E) /\
+    (forall e, In e (evs E) -> ahead E e -> ~ In e (evs R)) /\
+    (R = E <-> forall e, In e (evs E) -> snd e < e_end E).
+Proof. exact range_whole_span_partial. Qed.
+Print Assumptions C13_range_query_whole_span_partial.
+
+(* The merge of ALL blocks: when every transition of the stream is followed by MORE than m samples of
+   input (`confirmed`: m + 1 counting the edge sample), the merged block spans
+   [first - m, first - m + length), holds exactly the wanted transitions, all inside its span, and the
+   whole-span query returns it unchanged (corollary of C13_all_transitions_when_settled) ... *)
+Theorem C13_merged_all_whole_span : forall d m init fs_arg cs first,
+  1 <= m -> cs <> [] -> input_ok first cs ->
+  clean m init (stream cs) = true -> confirmed m init (stream cs) = true ->
+  exists bs M, run_edges d m init fs_arg cs = (bs, Ok) /\ combine_events bs = COk M /\
+    evs M = filter (wanted d) (transitions init first (stream cs)) /\
+    e_start M = first - m /\ e_end M = first - m + zlen (stream cs) /\
+    contained M /\ get_range_samples M (e_start M) (e_end M) = Some M.
+Proof. exact merged_all_whole_span. Qed.
+Print Assumptions C13_merged_all_whole_span.
+
+(* ... while `settled` (at least m samples from every edge on: everything has been reported) is not enough:
+   0 0 1 1 1 with m = 3 is reported completely, but the event (rising, 2) sits exactly at the end of the
+   merged span [-3, 2) and the whole-span query on the merge of all blocks omits it (replayed on the real
+   code, also for a falling edge) *)
+Theorem C13_merged_all_settled_refuted :
+  exists m init cs bs M R,
+    1 <= m /\ input_ok 0 cs /\ clean m init (stream cs) = true /\ settled m init (stream cs) = true /\
+    run_edges DBoth m init 1000 cs = (bs, Ok) /\ combine_events bs = COk M /\
+    evs M = transitions init 0 (stream cs) /\
+    get_range_samples M (e_start M) (e_end M) = Some R /\ R <> M /\
+    evs M = [(Rising, e_end M)] /\ evs R = [].
+Proof. exact merged_all_settled_refuted. Qed.
+Print Assumptions C13_merged_all_settled_refuted.
+
+(* non-vacuity of the hypotheses of the implications above *)
+Example C13_ex_ahead :
+  let E := {| evs := [(Rising, 5)]; e_start := -3; e_end := 5; e_fs := 1000 |} in
+  let E2 := {| evs := [(Falling, 9); (Rising, 13); (Falling, 18)]; e_start := 5; e_end := 21; e_fs := 1000 |} in
+  run_edges DBoth 3 false 1000 [plain (firstn 8 x_wit); plain (skipn 8 x_wit)] = ([] ++ E :: [E2], Ok) /\
+  In (Rising, 5) (evs E) /\ ahead E (Rising, 5) /\ e_end E + 3 <= e_end (last [E2] E).
+Proof. exact ahead_ex. Qed.
+Example C13_ex_merged_prefix :
+  let cs := [plain (firstn 10 x_wit); plain (skipn 10 x_wit)] in
+  exists M, combine_events (firstn 1 (fst (run_edges DBoth 3 false 1000 cs))) = COk M /\
+            e_end M = 7 /\ In (Falling, 9) (evs M).
+Proof. exact merged_prefix_ex. Qed.
+Example C13_ex_merged_all :
+  let cs := [plain [false; true]; plain [true; true; false]; plain []; plain [false; false]] in
+  1 <= 2 /\ cs <> [] /\ input_ok 0 cs /\ clean 2 false (stream cs) = true /\
+  confirmed 2 false (stream cs) = true.
+Proof. exact merged_all_ex. Qed.
